@@ -277,3 +277,65 @@ func splitSpaces(s string) []string {
 	}
 	return append(out, cur)
 }
+
+// ParseStanza strictly parses one canonical stanza from the front of data and
+// returns the unread remainder.
+func ParseStanza(data []byte) (Stanza, []byte, error) {
+	line := func() (string, error) {
+		i := bytes.IndexByte(data, '\n')
+		if i < 0 {
+			return "", errors.New("stanza: unterminated line")
+		}
+		l := string(data[:i])
+		data = data[i+1:]
+		return l, nil
+	}
+	l, err := line()
+	if err != nil {
+		return Stanza{}, nil, err
+	}
+	if len(l) < 3 || l[:3] != "-> " {
+		return Stanza{}, nil, errors.New("stanza: expected '-> '")
+	}
+	parts := splitSpaces(l[3:])
+	for _, p := range parts {
+		if !vchars(p) {
+			return Stanza{}, nil, errors.New("stanza: bad argument")
+		}
+	}
+	s := Stanza{Type: parts[0]}
+	if len(parts) > 1 {
+		s.Args = parts[1:]
+	}
+	for {
+		bl, err := line()
+		if err != nil {
+			return Stanza{}, nil, err
+		}
+		if len(bl) > 64 {
+			return Stanza{}, nil, errors.New("stanza: body line too long")
+		}
+		b, err := UnB64(bl)
+		if err != nil {
+			return Stanza{}, nil, err
+		}
+		s.Body = append(s.Body, b...)
+		if len(bl) < 64 {
+			return s, data, nil
+		}
+	}
+}
+
+// ParseStanzas parses a whole byte string as a sequence of canonical stanzas.
+func ParseStanzas(data []byte) ([]Stanza, error) {
+	var out []Stanza
+	for len(data) > 0 {
+		s, rest, err := ParseStanza(data)
+		if err != nil {
+			return out, fmt.Errorf("after %d stanzas: %w", len(out), err)
+		}
+		out = append(out, s)
+		data = rest
+	}
+	return out, nil
+}
